@@ -6,7 +6,7 @@ chosen parser state, followed by K *symbolic* line kinds; the oracle is kit.spec
 automaton derived from gherkin.berp + the error rules of C14).
 """
 import kit.sym as sym  # noqa (first)
-from kit.sym import param
+from kit.sym import param, pick
 
 from gherkin.parser import Parser
 from gherkin.errors import (CompositeParserException, ParserException, UnexpectedEOFException,
@@ -74,6 +74,9 @@ def run_real(kinds, stop):
 
 def compare(kinds, stop):
     """True iff the real parser and the specification agree on this kind sequence."""
+    # each symbolic kind is pinned by an explicit comparison chain (one solver-decided fork per value), so that the value is
+    # concrete on the path - the oracle side then runs outside the tracer
+    kinds = [pick(k, list(range(NK))) if not isinstance(k, int) or sym.SYMBOLIC else k for k in kinds]
     real = run_real(kinds, stop)
     spec = specparse.spec_parse(kinds, stop)
     n = len(kinds)
